@@ -207,9 +207,15 @@ def _scenario_child(scn, path):
             c = step["call"]
             if c == "kill":                                   # parent-side kill of an idle worker
                 p = env.processes[step["w"]]
-                os.kill(p.pid, signal.SIGKILL)
-                p.join(2.0)
-                log(ev="kill", w=step["w"] + 1)
+                if p.is_alive():
+                    try:
+                        os.kill(p.pid, signal.SIGKILL)
+                    except ProcessLookupError:
+                        pass
+                    else:
+                        p.join(2.0)
+                        log(ev="kill", w=step["w"] + 1)
+                # a worker that already exited (e.g. it raised) cannot be killed again: no event
                 continue
             if c == "settle":                                 # let workers finish what they have been sent
                 time.sleep(step.get("s", 0.1))
